@@ -59,6 +59,7 @@ def required(tier):
           'mass-iteration:converged', 'mass-iteration:first-pass-residual-negative',
           'table:low-ceiling-15k', 'table:thirsty-climb', 'starting-mass:given', 'identical-to-fresh-builder',
           'history:several-models-on-one-builder', 'table:transient-variant',
+          'history:config-reloaded:weather-dir-other', 'history:config-reloaded:weather-dir-empty',
           'same-exception-as-fresh-builder']
     return {'classes': cl, 'evaluations': 300}
 
@@ -72,8 +73,8 @@ def run_shard(spec, rec):
     from AEIC.missions import Mission
     from AEIC.performance.models import PerformanceModel
     from AEIC.trajectories.ground_track import GroundTrack
+    from vlib import boot, world
     from vlib import flightgen as fg
-    from vlib import world
     from vlib.storeops import Mismatch
 
     hdir = Path(tempfile.mkdtemp(prefix='c17-'))
@@ -86,6 +87,17 @@ def run_shard(spec, rec):
            'thirsty-climb': PerformanceModel.from_data(fg.special_model(base, climb_ff_scale=4.0))}
     pm = pms['sample']
     wx_day = pd.Timestamp('2024-09-01T12:00:00Z')
+    # a second weather directory: same day, winds of half the strength and reversed sign
+    import xarray as xr
+    other_wx = hdir / 'weather_other'
+    other_wx.mkdir()
+    with xr.open_dataset(boot.REPO_TEST_DATA / 'weather' / '20240901.nc') as ds0:
+        ds1 = ds0.load().copy(deep=True)
+    ds1['u'] = -0.5 * ds1['u']
+    ds1['v'] = -0.5 * ds1['v']
+    ds1.to_netcdf(other_wx / '20240901.nc')
+    empty_wx = hdir / 'weather_empty'
+    empty_wx.mkdir()
 
     def mission(o, d, lf, t=None, fid=None):
         t = t or pd.Timestamp('2024-03-03T12:00:00Z')
@@ -178,8 +190,8 @@ def run_shard(spec, rec):
                 ['sample', 'sample', 'low-ceiling-15k', 'low-ceiling-19k', 'thirsty-climb'])
             pm = pms[pm_name]
             iterate = rng.random() < 0.5
-            reltol = rng.choice([1e-2, 1e-3, 1e-5, 1e-9])
-            iters = rng.choice([2, 5, 25])
+            reltol = rng.choice([1e-2, 1e-3, 1e-5, 1e-9, 1e-13])
+            iters = rng.choice([2, 5, 25]) if reltol > 1e-12 else rng.choice([25, 80])
             frac = rng.choice([0.01, 0.02, 0.013, 0.05])
             if use_weather:
                 frac = rng.choice([0.1, 0.2, 1 / 7])      # wind lookups are slow (xarray)
@@ -197,6 +209,8 @@ def run_shard(spec, rec):
             log = []
             try:
                 multi_model = (not use_weather) and rng.random() < 0.4
+                reloaded = False
+                active_wx = 'original'
                 case_pm, case_pm_name = pm, pm_name
                 dropped_ids = set()
                 preloaded = None
@@ -231,10 +245,23 @@ def run_shard(spec, rec):
                             pm = pms[pm_name]
                         rec.cls('history:several-models-on-one-builder')
                     opts['table'] = pm_name
+                    if use_weather and step >= 1 and rng.random() < 0.35:
+                        # the global configuration is re-loaded with another weather directory
+                        # while the builder lives on: it must fly like a brand-new builder
+                        which = rng.choice(['other', 'empty', 'original'])
+                        wdir = {'other': other_wx, 'empty': empty_wx,
+                                'original': boot.REPO_TEST_DATA / 'weather'}[which]
+                        world.load_config(hdir, weather={'use_weather': True,
+                                                         'weather_data_dir': str(wdir)})
+                        reloaded = True
+                        active_wx = which
+                        log.append(('config-reloaded', which))
+                        rec.cls(f'history:config-reloaded:weather-dir-{which}')
                     kind, m, sm = gen_call(rng, use_weather)
                     got = outcome(veteran, m, sm, pm)
                     first_res = residuals[0] if residuals else None
                     n_passes = len(residuals)
+                    got_residuals = list(residuals)
                     ref = outcome(mk(), m, sm, pm)
                     rec.ev()
                     det = {'step': step, 'kind': kind, 'mission': [m.origin, m.destination],
@@ -255,10 +282,18 @@ def run_shard(spec, rec):
                         if iterate:
                             burned = float(t.starting_mass) - float(t.aircraft_mass[-1])
                             res = (float(t.total_fuel_mass) - burned) / float(t.total_fuel_mass)
-                            if not abs(res) < reltol:
+                            # the residual recomputed from the returned arrays carries about
+                            # 1e-12 of rounding; the residual the builder itself evaluated for
+                            # the returned pass (recorded at _fly_iteration) is exact
+                            own = got_residuals[-1] if got_residuals else None
+                            if not abs(res) < reltol + 2e-12 or (
+                                    own is not None and not abs(own) < reltol):
                                 raise Mismatch('mass iteration returned a trajectory whose '
                                                'leftover trip fuel exceeds the tolerance',
-                                               {'residual': res, **det})
+                                               {'residual': res, 'residual_of_last_pass': own,
+                                                'passes': len(got_residuals), **det})
+                            if reltol < 1e-11:
+                                rec.cls('mass-iteration:converged-to-a-very-tight-tolerance')
                             rec.cls('mass-iteration:converged')
                             if first_res is not None and first_res < -reltol:
                                 rec.cls('mass-iteration:first-pass-residual-negative')
@@ -290,7 +325,7 @@ def run_shard(spec, rec):
                         if kind == 'missing-weather' and not isinstance(e, FileNotFoundError):
                             raise Mismatch('missing weather file not reported as '
                                            'FileNotFoundError', {'error': f'{tn}: {e}', **det})
-                        if kind == 'outside-weather-domain' and not (
+                        if kind == 'outside-weather-domain' and active_wx != 'empty' and not (
                                 isinstance(e, ValueError) and 'weather' in str(e)):
                             raise Mismatch('point outside the weather domain not reported as such',
                                            {'error': f'{tn}: {e}', **det})
@@ -327,8 +362,12 @@ def run_shard(spec, rec):
                         preloaded = load_variant()
                 if k < 2:
                     rec.sample({'options': opts, 'history': log})
+                if reloaded:
+                    world.load_config(hdir)
             except Mismatch as mm:
                 rec.violation(mm.mechanism, mm.detail, case)
+                if reloaded:
+                    world.load_config(hdir)
     finally:
         Builder._fly_iteration = orig_iter
         Config.reset()
